@@ -153,6 +153,35 @@ func genSeries(c *hlib.Ctx, r int64, o genOpt) (ts []int64, vals []string) {
 	return ts, vals
 }
 
+// genLongSeries: 1500–4000 samples spread over many windows, so that the real targetChunkCount asks
+// for several chunks (the entry point DownsampleRaw decides the chunking itself).
+func genLongSeries(c *hlib.Ctx, r int64, counter bool) (ts []int64, vals []string) {
+	rr := c.R
+	n := rr.Range(1500, 4000)
+	t := []int64{0, 1600000000000 + rr.I64Range(0, 1<<30), rr.I64Range(0, 100*r)}[rr.Intn(3)]
+	v := rr.I64Range(0, 1000)
+	resetP := []int{1, 3, 10}[rr.Intn(3)]
+	nanP := []int{0, 0, 2, 10}[rr.Intn(4)]
+	for i := 0; i < n; i++ {
+		t += rr.I64Range(max64(1, r/3), 3*r/2+1)
+		ts = append(ts, t)
+		switch {
+		case rr.Intn(100) < nanP:
+			vals = append(vals, []string{"n", "s"}[rr.Intn(2)])
+		case counter:
+			if rr.Intn(100) < resetP {
+				v = rr.I64Range(0, 5)
+			} else {
+				v += rr.I64Range(0, 100)
+			}
+			vals = append(vals, strconv.FormatInt(v, 10))
+		default:
+			vals = append(vals, strconv.FormatInt(rr.I64Range(-1000, 1000), 10))
+		}
+	}
+	return ts, vals
+}
+
 func samplesField(ts []int64, vals []string) string {
 	if len(ts) == 0 {
 		return "-"
